@@ -7,7 +7,12 @@ ast.Parse under recover() with ten typings of the identifier x and, when they pa
 filled and an all-null/empty dataset; the sentence matrix with x renamed to every kind of symbol of real boltz stores
 is parsed against the store and evaluated through the Store query API over bolt files in which fields, set / link /
 prefix / map buckets, entities and stores are filled, nil, empty or were never written (c10_store.go).  Every panic, every accepted input with unrecognised characters and
-every accepted non-sentence (skeleton alphabet, decided by the C12 parser model) violates C10."""
+every accepted non-sentence (skeleton alphabet, decided by the C12 parser model) violates C10.
+Every filter of every stream also goes through every public parsing entry point (zitiql.Parse, ParseWithDebug false / true,
+Parse after a debug run, the ast listener, ast.Parse and the string query APIs of a boltz and of an objectz store;
+c10_entry.go; model Lang/GlueEntry.v, theorems entry_points_agree / every_entry_rejects_lexer_errors): one that accepts text with
+unrecognised characters or a non-sentence, panics, or disagrees with the others violates C10.  Stream qcur evaluates filters for
+every scanner through Store.QueryWithCursorC with every cursor provider the library offers (c10_cursors.go)."""
 import json
 import os
 
@@ -15,14 +20,15 @@ import vlib
 
 PID = "C10"
 FILES = ["theories/Properties/C10.v", "theories/Examples/C10Examples.v"]
+THEOREMS = ["lexer_error_rejects", "accepted_query_is_unaltered", "entry_points_agree", "every_entry_rejects_lexer_errors"]
 
 
 # the datasets of the store-backed streams (harness c10_store.go): <root> or only:<the one entity of the main store that is needed>
 STORE_DATASETS = {
-    "all": "the bolt file with every entity profile",
-    "orphan": "a bolt file in which the stores that the symbols link to were never created",
-    "hollow": "a bolt file whose store buckets exist and hold no entity",
-    "void": "a bolt file in which not even the root bucket of the stores exists",
+    "all": "the bolt file with every entity profile (set indexes filled)",
+    "orphan": "a bolt file in which the stores that the symbols link to - and the index buckets - were never created",
+    "hollow": "a bolt file whose store buckets and set-index buckets exist and hold no entity / no key",
+    "void": "a bolt file in which not even the root bucket of the stores (or of their indexes) exists",
     "only:m1-full": "a store whose only entity has every field, set, link and map entry written",
     "only:m2-full": "a store whose only entity has every field, set, link and map entry written (second value profile)",
     "only:m3-absent": "a store whose only entity was stored WITHOUT any field: no scalar, no list bucket of a set, no link bucket, no prefix bucket, no map bucket was ever written",
@@ -34,6 +40,33 @@ STORE_DATASETS = {
 }
 
 
+# the public parsing entry points, in the order of the letters of the 6th observation field (harness c10_entry.go)
+ENTRY_NAMES = [
+    "zitiql.Parse",
+    "zitiql.ParseWithDebug(debug=false)",
+    "zitiql.ParseWithDebug(debug=true)",
+    "zitiql.Parse directly after a ParseWithDebug(debug=true) run",
+    "zitiql.Parse with the ast.NewListener() listener",
+    "ast.Parse against the boltz store",
+    "boltz BaseStore.QueryIds(tx, string)",
+    "ast.Parse against the objectz store",
+    "objectz ObjectStore.QueryEntities(string)",
+]
+# (k, j): entry point k may only accept what entry point j accepts (k adds checks to j, it never removes one);
+# 0..3 are the same decision - syntax only - and must be equal
+ENTRY_IMPLIES = [(4, 0), (5, 4), (7, 4), (6, 5), (8, 7)]
+
+
+def parse_entries(field):
+    """n<letters>[;<k>:<site>...] -> (letters, {k: site})"""
+    parts = field[1:].split(";")
+    sites = {}
+    for p in parts[1:]:
+        k, _, site = p.partition(":")
+        sites[int(k)] = site
+    return parts[0], sites
+
+
 def runes(s):
     return "" if s == "-" else "".join(chr(int(h, 16)) for h in s.split("."))
 
@@ -43,11 +76,14 @@ def main(argv):
     c.cov["trusted_base"] = [
         "Coq 8.16.1 kernel (coqc; coqchk in the thorough tier); vm_compute in Examples only; no axioms",
         "hand-written models: Lang/Regex.v (derivatives), Lang/LexerFull.v (the 36 token rules of ZitiQl.g4 as regular expressions), "
-        "Lang/Lexer.v (ANTLR lexer loop with drop-and-continue recovery), Lang/Glue.v (zitiql.parse / ast.Parse listener wiring)",
+        "Lang/Lexer.v (ANTLR lexer loop with drop-and-continue recovery), Lang/Glue.v (zitiql.parse / ast.Parse listener wiring), "
+        "Lang/GlueEntry.v (the debug flag of zitiql.parse and the listeners that pooled lexer / parser instances carry from earlier calls; "
+        "modelled, not verified: under SLL prediction the diagnostic listener of the debug mode reports nothing)",
         "Section variable `parser` (Glue.v): the generated ANTLR parser + tree walk is an arbitrary total function in the theorems",
         "extraction (ExtrOcamlBasic only) + extraction/c10_driver.ml + drv_common.ml",
         "Go harness cmd/storageharness/c10.go (generators, in-memory ast.Symbols with null fields / empty sets / sub-query entities), "
-        "c10_store.go (real boltz stores over a bolt file: entity profiles full / never written / nil / empty / dangling / mistyped, roots all / orphan / hollow / void) and this comparison",
+        "c10_store.go (real boltz stores over a bolt file: entity profiles full / never written / nil / empty / dangling / mistyped, roots all / orphan / hollow / void), "
+        "c10_entry.go (the public parsing entry points, an objectz store), c10_cursors.go (cursor-provider matrix, raw set-index buckets) and this comparison",
         "ANTLR runtime (ATN interpreter termination, adaptive prediction, pooled lexer/parser instances): exercised by the streams, not modelled - C10 is partial by nature here",
         "typer / evaluator totality: Properties/C10Typer.v (separate model, built by the C01 owner)",
     ]
@@ -94,6 +130,7 @@ def main(argv):
         cf, fi, fm = case.split(), i.split(), m.split()
         stream, text, typings = cf[1], runes(cf[2]), cf[3].split("/")
         itoks, ierr, verdicts, pooled = fi[1], fi[2], fi[3].split("/"), fi[4]
+        entries, entry_sites = parse_entries(fi[5]) if len(fi) > 5 else ("", {})
         mtoks, mdrops, sentence = fm[1], fm[2], fm[3]
         evaluations += len(verdicts)
         if itoks != "-" or ierr != "e0":
@@ -105,13 +142,27 @@ def main(argv):
             if v.startswith("P:"):
                 c.violation("C10:panic-parse:" + v[2:], "ast.Parse(%r) panics in %s when x is typed %s" % (text, v[2:], ty), dict(rep, typing=ty))
                 flagged = True
+            elif v.startswith("V:") and ty == "cursors":
+                # cursor-provider evaluation: V:<site>@QueryWithCursorC:<provider>@<smallest root that still panics>
+                site, api, where = (v[2:].split("@") + ["-", "-"])[:3]
+                provider = api.partition(":")[2]
+                c.violation("C10:panic-eval:" + site,
+                            "filter %r parses against the bolt-backed store and Store.QueryWithCursorC(tx, %s, query) - or walking that provider's cursor - panics in %s over %s"
+                            % (text, provider, site, STORE_DATASETS.get(where, where)),
+                            dict(rep, typing=ty, api="QueryWithCursorC", cursor_provider=provider, dataset=where, dataset_meaning=STORE_DATASETS.get(where, where), site=site,
+                                 how_to_reproduce="stores and set indexes of harness/cmd/storageharness/c10_store.go c10sBuild (set index on mains.xss and on the fk set mains.xks), index content "
+                                 "c10_cursors.go c10cWriteIndexes (values s/a/m/z with rows, `hollowv` = key bucket without rows, nope/gone = no key; roots orphan and void: index buckets never created, "
+                                 "hollow: created and empty); provider as named (c10cMatrix); inside db.View: query, _ := ast.Parse(store, %r); store.QueryWithCursorC(tx, provider, query)" % text))
+                flagged = True
             elif v.startswith("V:") and ty == "store":
                 # store-backed evaluation: V:<site>@<api>@<smallest dataset that still panics>
                 site, api, where = (v[2:].split("@") + ["-", "-"])[:3]
+                api, _, provider = api.partition(":")   # QueryWithCursorC:<cursor provider of the matrix of c10_cursors.go>
+                call = "%s(tx, %s, query)" % (api, provider) if provider else api
                 c.violation("C10:panic-eval:" + site,
                             "filter %r parses against the bolt-backed store and Store.%s panics in %s when it is evaluated over %s"
-                            % (text, api, site, STORE_DATASETS.get(where, where)),
-                            dict(rep, typing=ty, api=api, dataset=where, dataset_meaning=STORE_DATASETS.get(where, where), site=site,
+                            % (text, call, site, STORE_DATASETS.get(where, where)),
+                            dict(rep, typing=ty, api=api, cursor_provider=provider or None, dataset=where, dataset_meaning=STORE_DATASETS.get(where, where), site=site,
                                  how_to_reproduce="define the stores of harness/cmd/storageharness/c10_store.go c10sBuild (main store `mains`: scalars s i f b a c d y name xs xi xf xb xd, "
                                  "xp below the bucket path ext/deep, fk xk -> subs, sets ss is xss xis xfs xbs xds, fk sets xks -> subs and xms -> mains, map tags), write the entity profile named by "
                                  "`dataset` (c10sWriteMain), then call Store.%s(tx, %r) inside db.View" % (api, text)))
@@ -121,14 +172,50 @@ def main(argv):
                             dict(rep, typing=ty))
                 flagged = True
         accepted = [ty for ty, v in zip(typings, verdicts) if v == "ok" or v.startswith("V:")]
-        if ierr != "e0" and accepted:
+        # every public parsing entry point: panics, and who accepts the text
+        entry_accepts = [ENTRY_NAMES[k] for k, l in enumerate(entries) if l == "A"]
+        for k, l in enumerate(entries):
+            if l == "P":
+                site = entry_sites.get(k, "?")
+                evaluating = (k == 6 and entries[5] == "A") or (k == 8 and entries[7] == "A")
+                c.violation("C10:panic-%s:%s" % ("eval" if evaluating else "parse", site), "%s panics in %s on the filter %r" % (ENTRY_NAMES[k], site, text),
+                            dict(rep, entry_point=ENTRY_NAMES[k], entries=entries))
+                flagged = True
+        if ierr != "e0" and (accepted or entry_accepts):
+            who = ("ast.Parse (x typed %s)" % accepted[0]) if accepted else entry_accepts[0]
             c.violation("C10:lexer-error-accepted",
-                        "filter %r contains characters no token rule accepts (%s lexer errors, the regions are dropped) and is nevertheless accepted (x typed %s)"
-                        % (text, ierr[1:], accepted[0]), dict(rep, typing=accepted[0]))
+                        "filter %r contains characters no token rule accepts (%s lexer errors, the regions are dropped) and is nevertheless accepted by %s"
+                        % (text, ierr[1:], who), dict(rep, typing=accepted[0] if accepted else None, accepted_by=["ast.Parse typed " + t for t in accepted] + entry_accepts,
+                                                      rejected_by=[ENTRY_NAMES[k] for k, l in enumerate(entries) if l == "R"], entries=entries))
             flagged = True
-        if sentence == "0" and accepted and text != "":
-            c.violation("C10:non-sentence-accepted", "filter %r is not a sentence of the grammar and is accepted" % text, rep)
+        if sentence == "0" and (accepted or entry_accepts) and text != "":
+            c.violation("C10:non-sentence-accepted", "filter %r is not a sentence of the grammar and is accepted by %s"
+                        % (text, ("ast.Parse (x typed %s)" % accepted[0]) if accepted else entry_accepts[0]),
+                        dict(rep, accepted_by=["ast.Parse typed " + t for t in accepted] + entry_accepts, entries=entries))
             flagged = True
+        # whether a text is refused is a function of the text: the entry points that decide on syntax alone agree, and an entry
+        # point that adds symbol / type checks (or evaluates) never accepts what the one below it refuses
+        if entries and text != "" and not flagged:
+            dis = None
+            for k in (1, 2, 3):
+                if entries[k] != entries[0] and "P" not in (entries[k], entries[0]):
+                    dis = (k, 0)
+                    break
+            if dis is None:
+                for k, j in ENTRY_IMPLIES:
+                    if entries[k] == "A" and entries[j] == "R":
+                        dis = (k, j)
+                        break
+            if dis is None and accepted and entries[0] == "R":
+                dis = ("ast.Parse (x typed %s)" % accepted[0], 0)
+            if dis is not None:
+                k, j = dis
+                kn = ENTRY_NAMES[k] if isinstance(k, int) else k
+                acc, rej = (kn, ENTRY_NAMES[j]) if (not isinstance(k, int) or entries[k] == "A") else (ENTRY_NAMES[j], kn)
+                c.violation("C10:entry-points-disagree",
+                            "filter %r is accepted by %s and rejected by %s: whether a text is a sentence of the filter grammar cannot depend on the entry point"
+                            % (text, acc, rej), dict(rep, accepted_by=acc, rejected_by=rej, entries=entries, entry_points=ENTRY_NAMES))
+                flagged = True
         if pooled.startswith("pP:"):
             c.violation("C10:panic-parse:" + pooled[3:], "zitiql.Parse(%r) panics in %s" % (text, pooled[3:]), rep)
             flagged = True
@@ -175,6 +262,14 @@ def main(argv):
                      "and token-level mutations of those; typing `store`: parsed against the real store and evaluated through QueryIds / QueryIdsC / IterateIds(+Seek) / IterateValidIds / QueryWithCursorC "
                      "(row-id list with ids of missing entities, related-entity cursors) over a bolt file with the entity profiles full / NEVER WRITTEN / nil+empty / scalars only / sets only / dangling references / mistyped "
                      "and over the roots all / orphan (linked stores never created) / hollow (no entity) / void (no bucket); a panic is minimised to the single entity profile that is needed. "
+                     "ins = 17 short valid sentences with one of 25 punctuation / control / non-ASCII characters inserted at every position. "
+                     "ENTRY POINTS: every filter of every stream through zitiql.Parse, ParseWithDebug(false), ParseWithDebug(true), Parse after the debug run, Parse with the ast listener, "
+                     "ast.Parse + QueryIds(string) of a boltz store, ast.Parse + QueryEntities(string) of an objectz store: accept / reject / panic per entry point; the syntax-only ones must be equal, "
+                     "a typed one never accepts what the one below it refuses, none accepts a lexer error or a non-sentence. "
+                     "qcur = 15 predicates x 13 sort / skip / limit clauses (every scanner), typing `cursors`: QueryWithCursorC + a walk of the cursor in both directions for EVERY provider of the matrix "
+                     "(IteratorMatchingAnyOf / AllOf on a string-set and an fk-set index with every value list of length 0..3 (thorough 0..4) over {absent, absent, key without rows, one row, several rows}, "
+                     "OpenValueCursor / OpenKeyCursor, tree sets of 0..3 ids, union / filtered cursors over them and over nil / empty cursors, empty and nil providers, entities bucket, related-entity cursors, "
+                     "a stored id list) over the four roots (indexes filled with ids of missing entities / never created / created and empty / no bucket); the store typing runs 3 providers per filter. "
                      "evaluations = (filter, typing) verdicts; each parsed filter is evaluated on a filled and an all-null/empty dataset; non-trivial = produces a token or a lexer error; distinct by case text"
                      % ((6, 5) if c.thorough else (5, 4)))
     idx = sorted(set((0, min(7, len(cases) - 1), len(cases) // 2, len(cases) - 1)))
@@ -184,7 +279,7 @@ def main(argv):
         c.violation("C10:correspondence", "model and implementation differ (%s) on %d cases, e.g. %r: impl %s model %s"
                     % (what, len(disagreements), runes(case.split()[2]), i, m),
                     dict(correspondence="Lang/LexerFull.v + Lang/Lexer.v vs zitiql lexer; Lang/BoolGrammar.v vs parser",
-                         theorems=["lexer_error_rejects", "accepted_query_is_unaltered"], case=case, impl=i, model=m), no_input=True)
+                         theorems=THEOREMS, case=case, impl=i, model=m), no_input=True)
     if not proof_ok:
         c.violation("C10:proof", "proof obligation no longer checks: %s" % json.dumps(c.proof_broken)[:600],
                     dict(broken=c.proof_broken), no_input=True)
